@@ -297,10 +297,14 @@ def run_config(dc, sc, res, rng, T, proto, disk_name, level, budget):
                 data = data[:size]
                 key = 's%d' % size
                 path = gen.pick(rng, ['set', 'add', 'push'] if not json_only else ['set', 'add'])
+                # the stream may hand out less than it is asked for (a pipe, a socket, a decompressor do)
+                short = rng.random() < 0.5
+                stream = ShortReads(data, rng) if short else io.BytesIO(data)
+                res.count('streams_with_short_reads' if short else 'streams_reading_fully')
                 if path == 'push':
-                    key = cache.push(io.BytesIO(data), read=True, prefix='s')
+                    key = cache.push(stream, read=True, prefix='s')
                 else:
-                    getattr(cache, path)(key, io.BytesIO(data), read=True)
+                    getattr(cache, path)(key, stream, read=True)
                 res.count('streams')
                 res.count('mode_binary_file')
                 res.seen('cells', ('stream', size, path))
@@ -321,6 +325,24 @@ def run_config(dc, sc, res, rng, T, proto, disk_name, level, budget):
         cache.close()
         twin.close()
         sc.drop(d)
+
+
+class ShortReads:
+    """A binary stream whose read(n) returns between 1 and n bytes until the data is exhausted."""
+
+    def __init__(self, data, rng):
+        self.data, self.pos, self.rng = data, 0, rng
+
+    def read(self, n=-1):
+        left = len(self.data) - self.pos
+        if n is None or n < 0:
+            n = left
+        n = min(n, left)
+        if n > 1:
+            n = self.rng.choice([1, n // 2, n - 1, n, n, max(1, n // 3)])
+        out = self.data[self.pos:self.pos + n]
+        self.pos += n
+        return out
 
 
 def run_containers(dc, sc, res, rng, T, proto):
